@@ -10,6 +10,9 @@ $C20_SCRIPT (a JSON file; absent = `[{"op": "init", "obj": 0}]`, what `pypyr.cli
   {"op": "new", "obj": k}               objs[k] = pypyr.config.Config()
   {"op": "init", "obj": k}              objs[k].init()
 
+$C20_PLATFORM (macos | windows) makes the process pretend to be that OS (sys.platform, os.pathsep patched before
+pypyr is imported); $C20_SYSPATH_EXTRA ('|'-separated) is appended to sys.path.
+
 and prints one JSON line: for the import and for every new / init step the error (if any), every
 writable property of that object *after* the step (also after a failed call: in-place mutation is
 observable), `skip_init`, `config_loaded_paths`, the `handle_path` calls made during the step in
@@ -25,7 +28,7 @@ import re
 import sys
 
 NAMES = ['PYPYR_SKIP_INIT', 'PYPYR_CONFIG_GLOBAL', 'PYPYR_CONFIG_LOCAL', 'PYPYR_NO_CACHE', 'PYPYR_ENCODING',
-         'PYPYR_CMD_ENCODING', 'XDG_CONFIG_HOME', 'XDG_CONFIG_DIRS']
+         'PYPYR_CMD_ENCODING', 'XDG_CONFIG_HOME', 'XDG_CONFIG_DIRS', 'ANDROID_DATA', 'ANDROID_ROOT', 'ALLUSERSPROFILE']
 
 
 def enc(v):
@@ -61,6 +64,13 @@ def classify(e):
         except Exception:
             keys = None
         return {'kind': 'unknownProps', 'keys': keys}
+    mod = type(e).__module__ or ''
+    if mod.startswith('ruamel') or mod.startswith('tomllib') or mod.startswith('tomli') or isinstance(e, UnicodeError):
+        return {'kind': 'parse'}
+    if isinstance(e, AttributeError) and "has no attribute 'get'" in msg:
+        return {'kind': 'toolNotTable'}
+    if isinstance(e, OSError) and 'Cannot find path to android app folder' in msg:
+        return {'kind': 'androidDir'}
     return {'kind': 'other'}
 
 
@@ -83,6 +93,15 @@ def main():
                 pass
     sys.addaudithook(hook)
     sys.path.insert(0, repo)
+    # which OS this process pretends to be: pypyr.platform asks sys.platform and os.pathsep when init() runs
+    plat = os.environ.get('C20_PLATFORM')
+    if plat == 'macos':
+        sys.platform = 'darwin'
+    elif plat == 'windows':
+        sys.platform = 'win32'
+        os.pathsep = ';'
+    for extra in filter(None, os.environ.get('C20_SYSPATH_EXTRA', '').split('|')):
+        sys.path.append(extra)          # what Android._get_android_dir scans when jnius is not there
     import pypyr.config as pc
     import pypyr.errors
     out = {'pypyr_file': pc.__file__}
